@@ -78,38 +78,45 @@ def c18_b(ctx: Ctx):
         else:
             out.append(ctx.inc(R, sp, r, "prefix stripping not recognised: " + t))
     # subset
-    sub = [n for n in body_nodes(f) if isinstance(n, ast.Assign) and any(isinstance(t, ast.Name) and t.id == "index" for t in n.targets) and "subset" in canon(n.value)]
+    # the index that is summarised: whatever is handed to _build_job_statepoint_index(index=...); assignments to it that derive from `subset` restrict it
+    bcalls = [c for c in body_nodes(f) if isinstance(c, ast.Call) and any(q.endswith(":_build_job_statepoint_index") for q in common.targets_of(ctx, f, c))]
+    ixnames = set()
+    for c in bcalls:
+        a0 = kwarg(c, "index") or (c.args[1] if len(c.args) > 1 else None)
+        if isinstance(a0, ast.Name):
+            ixnames.add(a0.id)
+    dsub = common.derived_names(f, "subset") if "subset" in f.params else set()
+    sub = [n for n in body_nodes(f) if isinstance(n, ast.Assign) and any(isinstance(t, ast.Name) and t.id in ixnames for t in n.targets) and (dsub & names_in(n.value))]
     if "subset" in f.params:
-        if not sub:
+        if not ixnames:
+            out.append(ctx.inc(R, f, f.node, "the index handed to _build_job_statepoint_index is not a local variable"))
+        elif not sub:
             out.append(ctx.viol(R, f, f.node, "detect_schema accepts `subset` but never restricts the index with it"))
-        pm = ctx.parents(f)
         for a in sub:
-            cur = pm.get(id(a))
-            while cur is not None and not isinstance(cur, ast.If):
-                cur = pm.get(id(cur))
-            from ..cfg import cond_atoms
-            atoms = cond_atoms(cur.test, True) if cur is not None and common.in_body_of(ctx, f, a, cur, ("body",)) else []
-            if ("subset is None", False) in atoms:
+            facts = common.facts_at(ctx, f, a, "n")
+            about = [(t, p) for (t, p) in facts if "subset" in names_in(ast.parse(t, mode="eval").body)] if facts else []
+            if ("subset is None", False) in facts:
                 out.append(ctx.ok(R, f, a, "the index is restricted whenever subset is not None"))
-            elif ("subset", True) in atoms:
+            elif ("subset", True) in facts:
                 out.append(ctx.viol(R, f, a, "the index is restricted only when `subset` is truthy: an empty selection (e.g. a cursor that matches nothing) yields the schema of the whole project"))
-            elif cur is None:
+            elif not about:
                 out.append(ctx.ok(R, f, a, "the index is always restricted to the subset"))
             else:
-                out.append(ctx.inc(R, f, a, f"subset guard: {atoms}"))
+                out.append(ctx.inc(R, f, a, f"subset guard: {sorted(about)}"))
     uses = [n for n in body_nodes(f) if isinstance(n, ast.Attribute) and n.attr == "_sp_cache"]
     if uses:
         out.append(ctx.viol(R, f, uses[0], "detect_schema consults the state point cache: the cache keeps entries of removed jobs, so a subset that names a removed job contributes keys and values "
                             "of a job that no longer exists", construct=DS + "|no-cache"))
     else:
         out.append(ctx.ok(R, f, f.node, "the selected jobs are validated against the freshly built index, not against the state point cache", construct=DS + "|no-cache", nontrivial=False))
-    inter = [n for n in body_nodes(f) if isinstance(n, ast.Call) and isinstance(n.func, ast.Attribute) and n.func.attr == "intersection" and "index" in canon(n)]
+    inter = [n for n in body_nodes(f) if isinstance(n, ast.Call) and isinstance(n.func, ast.Attribute) and n.func.attr == "intersection"
+             and any(isinstance(x, ast.Call) and isinstance(x.func, ast.Attribute) and x.func.attr == "keys" for x in ast.walk(n))]
     if "subset" in f.params:
         if inter:
             out.append(ctx.ok(R, f, inter[0], "a subset is intersected with the ids of the index built from the workspace", construct=DS + "|subset-intersection"))
         else:
             out.append(ctx.inc(R, f, f.node, "subset is not intersected with the index keys", construct=DS + "|subset-intersection"))
-    cb = f.nested.get("_collect_by_type")
+    cb = f.nested.get("_collect_by_type") or ctx.prog.funcs.get(f.module.name + ":_collect_by_type")
     if cb is not None:
         lt = {x for n in body_nodes(cb) if isinstance(n, ast.For) for x in common.target_names(n.target)}
         ok = any(isinstance(n, ast.Subscript) and common.pmatch("type(V)", n.slice) is not None and canon(n.slice.args[0]) in lt for n in body_nodes(cb))
